@@ -1,7 +1,9 @@
 //! C07 — compilation is deterministic across threads, runs and unrelated prior work.
 //!
 //! Model-independent oracle on the real code: a varied set of value *recipes* (packing graphs that overflow and
-//! get spaces / duplicated subgraphs; GPOS / GSUB built with the layout builders, big enough for extension
+//! get spaces / duplicated subgraphs; a "tie family" in which several equally distant roots of one 32-bit space are
+//! duplicated in one isolation step and share descendants over paths of unequal length, so that the relative ids of
+//! the copies decide the layout; GPOS / GSUB built with the layout builders, big enough for extension
 //! promotion and subtable splitting; gvar with shared tuples; item variation stores; ClassDefs; IUP; whole fonts via
 //! FontBuilder; klippa subsets of the test fonts) is compiled
 //!   (a) twice in a row,
@@ -89,7 +91,7 @@ fn first_diff(a: &[u8], b: &[u8]) -> String {
 // ------------------------------------------------------------------------------------------------
 // recipes: (kind, seed) -> bytes.  Everything random derives from the seed; nothing from the environment.
 
-const KINDS: [&str; 11] = ["mock", "gpos", "gsub", "gvar", "ivs", "classdef", "iup", "font", "subset", "mockbig", "spacefam"];
+const KINDS: [&str; 12] = ["mock", "gpos", "gsub", "gvar", "ivs", "classdef", "iup", "font", "subset", "mockbig", "spacefam", "tiefam"];
 
 #[derive(Clone, Debug)]
 struct Recipe {
@@ -99,12 +101,22 @@ struct Recipe {
 
 impl Recipe {
     fn show(&self) -> String {
+        if self.kind == "tiefam" {
+            // the graph itself: index(size):target/width,…  (index 0 is the root; /4 = Offset32, /2 = Offset16)
+            let (nodes, _) = tie_spec(&mut Rng::new(self.seed));
+            let g: Vec<String> = nodes
+                .iter()
+                .enumerate()
+                .map(|(i, n)| format!("{i}({}):{}", n.size, if n.links.is_empty() { "-".to_string() } else { n.links.iter().map(|(t, w)| format!("{t}/{w}")).collect::<Vec<_>>().join(",") }))
+                .collect();
+            return format!("recipe kind={} seed={} graph {}", self.kind, self.seed, g.join(" "));
+        }
         format!("recipe kind={} seed={}", self.kind, self.seed)
     }
 }
 
 fn recipes(cfg_seed: u64, thorough: bool) -> Vec<Recipe> {
-    let per_kind: &[(usize, usize)] = &[(120, 1200), (40, 300), (30, 200), (40, 300), (40, 300), (50, 400), (30, 300), (20, 150), (40, 300), (60, 500), (120, 1000)];
+    let per_kind: &[(usize, usize)] = &[(120, 1200), (40, 300), (30, 200), (40, 300), (40, 300), (50, 400), (30, 300), (20, 150), (40, 300), (60, 500), (120, 1000), (100, 800)];
     let mut out = vec![];
     for (k, kind) in KINDS.iter().enumerate() {
         let n = if thorough { per_kind[k].1 } else { per_kind[k].0 };
@@ -130,6 +142,7 @@ fn compile_inner(r: &Recipe) -> Vec<u8> {
         "mock" => mock_graph(&mut rng, false),
         "mockbig" => mock_graph(&mut rng, true),
         "spacefam" => space_family(&mut rng),
+        "tiefam" => tie_family(&mut rng),
         "gpos" => gpos(&mut rng),
         "gsub" => gsub(&mut rng),
         "gvar" => gvar(&mut rng),
@@ -296,6 +309,241 @@ fn space_family(rng: &mut Rng) -> Vec<u8> {
 
 thread_local! {
     static SPACEFAM_STATS: std::cell::Cell<(u32, u32, u32)> = const { std::cell::Cell::new((0, 0, 0)) };
+}
+
+// ---- "tie family": several roots of ONE 32-bit space that are all duplicated in one isolate_subgraph_hb call ------
+
+/// One object of a tie-family graph: total size in bytes and (target index, offset width) links. The encoded
+/// object is: the offsets, a 4-byte tag unique to the index (no two objects are equal, so the ObjectStore merges
+/// nothing), 0xEF padding up to `size`.
+#[derive(Clone, Debug)]
+struct TNode {
+    size: usize,
+    links: Vec<(usize, u8)>,
+}
+
+/// What the generated shape contains (statistics only; never part of the compared bytes).
+#[derive(Clone, Copy, Debug, Default)]
+struct TieShape {
+    /// space roots that also have a 16-bit parent (each one is duplicated together with its subgraph)
+    dup_roots: usize,
+    /// at least two of those have the same size, i.e. the same distance from the graph root
+    tied: bool,
+    /// a descendant common to two tied duplicated roots, reached over paths of unequal length
+    unequal_paths: bool,
+    /// … and a further object of the space whose distance lies strictly between the two candidates
+    between: bool,
+}
+
+/// The shape that makes the RELATIVE ids of duplicated objects observable in the output:
+///
+/// ```text
+///   root =32=> BIG -16-> T <-16- root          (overflows under the plain sorts: assign_spaces_hb runs)
+///   root =32=> P_1 … P_k   and   root -16-> Q -16-> P_i   (the space roots are shared with the 16-bit world)
+///   P_a -> … -> Z_j <- … <- P_b                (common descendants over chains of 0..3 intermediate objects)
+///   P_i -> W                                   (leaves whose size falls between the candidate distances of a Z)
+/// ```
+///
+/// `update_distances` pops a heap keyed by (distance, ObjectId): roots of equal size tie and are visited in id
+/// order, a common descendant keeps the distance of the first visit, and `sort_shortest_distance` then places it
+/// before or after the in-between leaf. Everything is randomised around that shape (number of roots, which roots Q
+/// reaches, sizes with and without ties, shared chains, objects shared with the 16-bit world, link order).
+fn tie_spec(rng: &mut Rng) -> (Vec<TNode>, TieShape) {
+    let k = *rng.pick(&[2usize, 2, 2, 3, 3, 4, 5]);
+    let mut nodes: Vec<TNode> = vec![];
+    let add = |nodes: &mut Vec<TNode>, size: usize| {
+        nodes.push(TNode { size, links: vec![] });
+        nodes.len() - 1
+    };
+    let root = add(&mut nodes, 0);
+    let q = add(&mut nodes, 0);
+    // the overflow gadget: T must be placed behind everything that refers to it
+    let t = add(&mut nodes, rng.range(8, 40) as usize);
+    let mut root_links: Vec<(usize, u8)> = vec![(t, 2), (q, 2)];
+    if rng.chance(3, 4) {
+        let big = add(&mut nodes, 65535 - rng.below(12) as usize);
+        nodes[big].links.push((t, 2));
+        root_links.push((big, 4));
+    } else {
+        // two blocks that share T: a second space with two roots that overflows again (try_isolating_subgraphs)
+        for size in [rng.range(36_000, 44_000) as usize, rng.range(30_000, 36_000) as usize] {
+            let b = add(&mut nodes, size);
+            nodes[b].links.push((t, 2));
+            root_links.push((b, 4));
+        }
+    }
+    // the space roots
+    let tie = rng.chance(5, 6);
+    let psize0 = *rng.pick(&[12usize, 20, 24, 40, 64]);
+    let roots: Vec<usize> = (0..k)
+        .map(|_| {
+            let size = if tie { psize0 } else { psize0 + 2 * rng.below(4) as usize };
+            add(&mut nodes, size)
+        })
+        .collect();
+    let mut in_q: Vec<bool> = (0..k).map(|_| rng.chance(5, 6)).collect();
+    if in_q.iter().filter(|b| **b).count() < 2 {
+        in_q = vec![true; k];
+    }
+    for (i, &p) in roots.iter().enumerate() {
+        root_links.push((p, 4));
+        if rng.chance(1, 8) {
+            root_links.push((p, 4)); // a second wide link
+        }
+        if in_q[i] {
+            nodes[q].links.push((p, 2));
+        }
+    }
+    // common descendants; path_len[r][j] = bytes between root r and the end of Z_j along r's chain
+    let m = rng.range(1, 3) as usize;
+    let mut shape = TieShape { dup_roots: in_q.iter().filter(|b| **b).count(), ..Default::default() };
+    let mut inner: Vec<usize> = vec![]; // chain objects (leaves may hang off them too)
+    for _ in 0..m {
+        let mut chain_heads: Vec<(usize, usize, usize)> = vec![]; // (owner root index, head object, bytes head..=Z)
+        let zsize = rng.range(40, 400) as usize;
+        let z = add(&mut nodes, zsize);
+        let mut order: Vec<usize> = (0..k).collect();
+        rng.shuffle(&mut order);
+        let reach = rng.range(2, k as i64) as usize;
+        let mut dists: Vec<(usize, usize)> = vec![]; // (root index, distance of Z below that root)
+        for (n, &r) in order.iter().take(reach).enumerate() {
+            // sometimes join the chain another root already has to this Z
+            let heads: Vec<(usize, usize, usize)> = chain_heads.iter().copied().filter(|(o, _, _)| *o != r).collect();
+            if n > 0 && !heads.is_empty() && rng.chance(1, 6) {
+                let (_, h, d) = *rng.pick(&heads);
+                if !nodes[roots[r]].links.iter().any(|(t, _)| *t == h) {
+                    nodes[roots[r]].links.push((h, 2));
+                    dists.push((r, d));
+                    continue;
+                }
+            }
+            let len = if n == 0 && rng.chance(2, 3) { 0 } else { rng.below(4) as usize };
+            let mut total = zsize;
+            let mut next = z;
+            let mut head = None;
+            for _ in 0..len {
+                let ysize = rng.range(50, 300) as usize;
+                let y = add(&mut nodes, ysize);
+                nodes[y].links.push((next, 2));
+                total += ysize;
+                next = y;
+                head = Some(y);
+                inner.push(y);
+            }
+            nodes[roots[r]].links.push((next, if rng.chance(1, 10) { 4 } else { 2 }));
+            if let Some(h) = head {
+                chain_heads.push((r, h, total));
+            }
+            dists.push((r, total));
+        }
+        // what the shape offers to an id-dependent tie-break
+        let mut window: Option<(usize, usize)> = None;
+        for a in 0..dists.len() {
+            for b in 0..dists.len() {
+                let ((ra, da), (rb, db)) = (dists[a], dists[b]);
+                if ra != rb && in_q[ra] && in_q[rb] && nodes[roots[ra]].size == nodes[roots[rb]].size {
+                    shape.tied = true;
+                    if da < db {
+                        shape.unequal_paths = true;
+                        if window.map_or(true, |(lo, hi)| db - da > hi - lo) {
+                            window = Some((da, db));
+                        }
+                    }
+                }
+            }
+        }
+        // leaves: most of them sized to fall between the two candidate distances of this Z
+        for _ in 0..rng.range(0, 2) {
+            let wsize = match window {
+                Some((lo, hi)) if hi - lo >= 2 && rng.chance(4, 5) => {
+                    shape.between = true;
+                    rng.range(lo as i64 + 1, hi as i64 - 1) as usize
+                }
+                _ => rng.range(30, 700) as usize,
+            };
+            let w = add(&mut nodes, wsize);
+            let parent = if !inner.is_empty() && rng.chance(1, 8) { *rng.pick(&inner) } else { roots[order[rng.below(reach as u64) as usize]] };
+            nodes[parent].links.push((w, 2));
+        }
+        if rng.chance(1, 8) {
+            nodes[q].links.push((z, 2)); // also shared with the 16-bit world directly
+        }
+    }
+    if rng.chance(1, 2) {
+        rng.shuffle(&mut root_links);
+    }
+    nodes[root].links = root_links;
+    for n in nodes.iter_mut() {
+        if rng.chance(1, 3) {
+            rng.shuffle(&mut n.links);
+        }
+        let fixed = 4 + n.links.iter().map(|(_, w)| *w as usize).sum::<usize>();
+        n.size = n.size.max(fixed);
+    }
+    (nodes, shape)
+}
+
+fn tie_tag(i: usize) -> [u8; 4] {
+    [0x54, 0x49, (i >> 8) as u8, i as u8]
+}
+
+/// The same objects as a value of a table type: compiled through `dump_table` (TableWriter, ObjectStore, ids in
+/// post-order of the traversal) like any generated table.
+struct TieTable<'a> {
+    nodes: &'a [TNode],
+    at: usize,
+}
+
+impl write_fonts::FontWrite for TieTable<'_> {
+    fn write_into(&self, writer: &mut write_fonts::TableWriter) {
+        let n = &self.nodes[self.at];
+        let mut used = 4;
+        for (target, width) in &n.links {
+            writer.write_offset(&TieTable { nodes: self.nodes, at: *target }, *width as usize);
+            used += *width as usize;
+        }
+        writer.write_slice(&tie_tag(self.at));
+        writer.write_slice(&vec![0xEF; n.size - used]);
+    }
+}
+
+impl write_fonts::validate::Validate for TieTable<'_> {
+    fn validate_impl(&self, _ctx: &mut write_fonts::validate::ValidationCtx) {}
+}
+
+fn tie_family(rng: &mut Rng) -> Vec<u8> {
+    let (nodes, shape) = tie_spec(rng);
+    TIEFAM_SHAPE.with(|c| c.set(shape));
+    if rng.chance(1, 2) {
+        // the public path: value -> TableWriter -> ObjectStore -> Graph -> pack_objects -> serialize
+        return res(dump_table(&TieTable { nodes: &nodes, at: 0 }));
+    }
+    // the mock-graph path of the other packing recipes (ids in index order, optionally with gaps)
+    let specs: Vec<NodeSpec> = nodes
+        .iter()
+        .enumerate()
+        .map(|(i, n)| {
+            let mut bytes = vec![0xEFu8; n.size];
+            let mut links = vec![];
+            let mut pos = 0u32;
+            for (target, width) in &n.links {
+                bytes[pos as usize..(pos + *width as u32) as usize].fill(0);
+                links.push(LinkSpec { pos, width: *width, target: *target, adjustment: 0 });
+                pos += *width as u32;
+            }
+            bytes[pos as usize..pos as usize + 4].copy_from_slice(&tie_tag(i));
+            NodeSpec { bytes, links, burn_ids: if rng.chance(1, 6) { rng.below(4) as u32 } else { 0 } }
+        })
+        .collect();
+    let mut g = VGraph::new(&specs, 0);
+    match g.dump() {
+        Some(b) => b,
+        None => b"PACKFAIL".to_vec(),
+    }
+}
+
+thread_local! {
+    static TIEFAM_SHAPE: std::cell::Cell<TieShape> = const { std::cell::Cell::new(TieShape { dup_roots: 0, tied: false, unequal_paths: false, between: false }) };
 }
 
 fn mock_graph(rng: &mut Rng, big: bool) -> Vec<u8> {
@@ -1025,6 +1273,20 @@ fn run(cfg: &Config, s: &mut Session) {
             let (objs, specs, spaces) = SPACEFAM_STATS.with(|c| c.get());
             s.count(&format!("spacefam:spaces-assigned={}", spaces.saturating_sub(2).min(5)));
             s.count(&format!("spacefam:objects-duplicated={}", match objs.saturating_sub(specs) { 0 => "0", 1 => "1", 2..=4 => "2-4", _ => "5+" }));
+        }
+        if r.kind == "tiefam" {
+            let _ = compile(r);
+            let sh = TIEFAM_SHAPE.with(|c| c.get());
+            s.count(&format!("tiefam:roots-duplicated={}", sh.dup_roots));
+            s.count(&format!(
+                "tiefam:shape={}",
+                match (sh.tied, sh.unequal_paths, sh.between) {
+                    (false, _, _) => "no-tie",
+                    (true, false, _) => "tie,equal-paths",
+                    (true, true, false) => "tie,unequal-paths",
+                    (true, true, true) => "tie,unequal-paths,in-between-object",
+                }
+            ));
         }
     }
     let base_sig: Vec<String> = base.iter().map(|b| sig(b)).collect();
